@@ -4,18 +4,22 @@ import kcp_common as K
 META = {
     "enabled": True,
     "engine": "kcp",
-    "technique": "Coq proofs of the flow-control building blocks (standstill, probe timer, WASK answered, reopen announced, window update) for all reachable states; resumption under lossy WASK/WINS/ACK decided by simulation of the real cores (partial)",
-    "level_text": "Proved for every reachable state: with a zero remote window no flush numbers or transmits a new segment; the probe timer arms at 500 ms, fires a WASK when due and backs off by half up to 120 s (bounds invariant over all operation sequences); a WASK sets the tell flag and the next flush of either kind sends WINS with the true free window; a Recv that takes the delivery queue from full to not full schedules a WINS; any regular segment updates rmt_wnd and a full flush then admits queued data. No loss/no bloat while stalled are the C01 and C04 theorems. PARTIAL: 'transfer resumes and completes although every WASK/WINS/ACK of a finite period is lost' is decided on the real cores (pause point x pause length x rcv_wnd 1..32 x control-datagram loss window x reordering, with and without congestion control).",
-    "level_note": K.TRUST + " Partial: the composition of the building blocks into resumption is established by simulation.",
+    "technique": "Coq proofs of the flow-control building blocks for all reachable states and of resumption (probe round + drain) from every reachable state of the two-endpoint system; differential replay + directed stall scenarios",
+    "level_text": "Proved for every reachable state: with a zero remote window no flush numbers or transmits a new segment; the probe timer arms at 500 ms, fires a WASK when due and backs off by half up to 120 s (bounds invariant over all operation sequences); a WASK sets the tell flag and the next flush of either kind sends WINS with the true free window; a Recv that takes the delivery queue from full to not full schedules a WINS; any regular segment updates rmt_wnd and a full flush then admits queued data. No loss/no bloat while stalled are the C01 and C04 theorems. Resumption (C02b.v): from EVERY reachable state of the two-way system - whatever WASK/WINS/ACK datagrams were lost before is just part of how the state was reached - with a zero remote window the probe round (A flushes twice, the WASK reaches B, B reads and flushes, the WINS reaches A) yields rmt_wnd > 0 (c02b_probe_round), and finitely many healed rounds then complete the transfer (c02b_drains_delivered). The monitors additionally run pause point x pause length x rcv_wnd 1..32 x control-datagram loss window x reordering on the real cores, with and without congestion control.",
+    "level_note": K.TRUST + " Premises of the system theorems: no_wrap, the message-mode contract B8, one-directional data; the timing of the Go runtime is not exhibited.",
 }
 OBLIGATIONS = ["c03_sender_standstill", "c03_probe_arms", "c03_probe_fires", "c03_probe_backoff", "c03_wask_answered",
                "c03_tell_emits_wins", "c03_reopen_announced", "c03_window_update", "c03_resume_admits"]
 RELEVANT = K.RESULTS | K.PANICS | {"probe", "tsprobe", "probewait", "rmtwnd", "rq", "rb", "sb", "sq", "una", "nxt", "rnxt", "cwnd"}
 
 
+SYSTEM_OBLIGATIONS = ["c02b_probe_round", "c02b_probe_is_run", "c02b_drains", "c02b_drains_delivered", "c02b_link_reach"]
+
+
 def run(ctx):
     K.core_check(ctx, "C03", "C03.v", OBLIGATIONS, RELEVANT,
                  "kcp.go vs coq/kcp/Kcp.v on stalled-reader histories with lost window probes/updates")
+    K.extra_statements(ctx, "kcp", "C02b.v", SYSTEM_OBLIGATIONS)
     ctx.coverage["rule"] = ("directed stall scenarios (pause start 0..30 ticks, pause length 10..210 ticks, rcv_wnd in {1,2,3,4,8,32}, every WASK/WINS/ACK-only datagram of a random window lost, "
                             "10 % reordering/duplication) and random histories with reader stalls, each followed by a healed network until everything is delivered; C04 occupancy monitors run after every call; "
                             "non-trivial = a zero-window episode occurred")
